@@ -342,3 +342,27 @@ MANIFEST_TEXT["C06"] = {
              "IncompatibleArgsError."),
     "note": "Trusted: CPython, icontract, the 50 lines of set arithmetic in pvm/checks/c06.py.",
 }
+
+META["C07"] = {
+    "level": "exploration",
+    "rule": ("cases = (constraint list, optional context) with <=6 terms over <=5 variables in the families random, "
+             "planted duplicates, scalings, positive combinations, implied-only-via-context, tight and nearly tight "
+             "redundancies (margins 0 .. 1e-2 .. 0.5), infeasible, no context; contracts built / simplified; "
+             "compositions (nested simplifications with contexts assembled by the algebra). Every simplify event is "
+             "judged: selection of the original terms, meaning kept in context (z3), no kept term implied with margin "
+             "by the rest, ValueError only without an interior point; contract level: A & G unchanged. Non-trivial = "
+             "at least one simplify event was judged; distinct = case digests."),
+    "required": ["events:simplify:direct", "events:simplify:nested", "events:contract-level",
+                 "simplify:returned-on-feasible:direct", "simplify:returned-on-feasible:nested",
+                 "simplify:dropped-something:direct", "simplify:raise-justified", "family:via_context",
+                 "family:near_tight", "family:combinations"],
+    "assumptions": [NUM, TB, "a kept constraint counts as redundant only when implied with a margin of "
+                    "1e-4*(1+|c|); systems without an interior point at margin 1e-3 may raise or return"],
+    "soft_s": {"quick": 200, "thorough": 3000},
+}
+MANIFEST_TEXT["C07"] = {
+    "technique": RM + "wrapper on every PolyhedralTermList.simplify and on IoContract construction; exact z3 oracle for selection, equivalence in context, irredundancy with margin, justified ValueError",
+    "text": ("Exploration: every simplification performed (directly, at contract construction, or nested inside the "
+             "algebra) is judged by exact arithmetic for the four clauses of the property."),
+    "note": "Trusted: CPython, z3, pvm/exact.py.",
+}
